@@ -3,7 +3,7 @@ CONSTANTS
   FlagNames = {"a", "b", "c"}
   MaxTok = 2
   LitChars = {}
-  AllUserSets = TRUE
+  AllUserSets = FALSE
   Export = TRUE
 INVARIANT TypeOK
 INVARIANT AcyclicReachesExpansion
